@@ -66,7 +66,7 @@ noncomputable def Cov.devBound : Cov ℝ → List ℝ → List ℝ → List ℝ
   | .pow l p ad, x, y =>
     let xs := select ad x; let ys := select ad y
     expand ad y.length ((l.devBound xs ys).map fun b =>
-      |if 0 < l.k xs ys then p * (l.k xs ys) ^ (p - 1) else 0| * b)
+      |if (¬ (0 < l.k xs ys) ∧ ¬ (l.k xs ys < 0)) ∧ p < 1 then 0 else p * (l.k xs ys) ^ (p - 1)| * b)
 
 /-- A radial leaf written on its own columns: `kGradE e (leaf ad) x y = expand ad d (kGradE e (leaf none) xs ys)`. -/
 theorem radial_leaf_unfold (c : Cov ℝ) (hc : c.isRadial = true) (x y : List ℝ) :
@@ -298,10 +298,10 @@ theorem kGradE_close (c : Cov ℝ) (x y u : List ℝ) (hxy : x.length = y.length
     have hau : (absL u).length = y.length := by rw [absL_length]; exact hu
     have h1 := ih _ _ _ hs hus (hw ▸ hl)
     simp only [Cov.kGradE, Cov.devBound, rpow_real]
-    set C := if 0 < l.k (select ad x) (select ad y) then p * l.k (select ad x) (select ad y) ^ (p - 1) else 0
-      with hC
-    have hmap : ∀ bg : ℝ, (if 0 < l.k (select ad x) (select ad y)
-        then p * l.k (select ad x) (select ad y) ^ (p - 1) * bg else 0) = C * bg := by
+    set C := if (¬ (0 < l.k (select ad x) (select ad y)) ∧ ¬ (l.k (select ad x) (select ad y) < 0)) ∧ p < 1
+      then 0 else p * l.k (select ad x) (select ad y) ^ (p - 1) with hC
+    have hmap : ∀ bg : ℝ, (if (¬ (0 < l.k (select ad x) (select ad y)) ∧ ¬ (l.k (select ad x) (select ad y) < 0)) ∧ p < 1
+        then 0 else p * l.k (select ad x) (select ad y) ^ (p - 1) * bg) = C * bg := by
       intro bg; rw [hC]; split_ifs <;> ring
     rw [dot_expand_select ad y u _ hu, dot_expand_select ad y u _ hu, dot_expand_select ad y (absL u) _ hau,
       select_absL,
